@@ -102,7 +102,7 @@ theorem prePut_queues (s : KState ℚ σ) (r : ResId) (e : EvId) (r' : ResId) :
 theorem InvL.sameCbs {g : Ghost} {s s' : KState ℚ σ} (hi : InvL g s) (hsz : s.events.size ≤ s'.events.size)
     (hp : ∀ p, s'.proc? p = s.proc? p) (ho : ∀ p, (s'.ev p).out = none → (s.ev p).out = none)
     (hc : ∀ e, (s'.ev e).cbs = (s.ev e).cbs) : InvL g s' :=
-  hi.transfer hsz hp ho (fun _ h => h) (fun e _ h => by rw [hc]; exact h)
+  hi.transfer hsz hp ho (fun _ h => h) (fun h => h) (fun e _ h => by rw [hc]; exact h)
     (fun e L p hL hm _ => Or.inr ⟨L, by rw [hc]; exact hL, hm⟩)
 
 /-- triggering a pending request event keeps the core and liveness invariants -/
